@@ -781,7 +781,7 @@ class C05(Prop):
     id = "C05"
     props_file = "Props/C05.v"
     # redundant tie (core.gen_tie): these decision functions, translated from the source on every run, equal the hand model for all inputs
-    gen_tie_theorems = ['GenTie_is_id_switched', 'GenTie_is_same_match', 'GenTie_is_result_correct_clear']
+    gen_tie_theorems = ['GenTie_is_id_switched', 'GenTie_is_same_match', 'GenTie_is_result_correct_clear', 'GenTie_CLEAR__calculate_tp_fp', 'GenTie_CLEAR__calculate_score', 'GenTie_CLEAR___init__']
     gen_files = []
     design_ref = "DESIGN.md section 4, C05"
     technique = ("Rocq proof over an executable Gallina model of CLEAR.__init__/_calculate_tp_fp/_is_id_switched/_is_same_match/"
